@@ -19,6 +19,11 @@ static uint64_t n_limit_refusals = 0, n_fit_equal = 0, n_nontrivial = 0, n_parse
 
 struct LimitGuard { ~LimitGuard() { ada::set_max_input_length(UNLIMITED); } };
 
+// Observation is not part of the operation under test: get_origin() parses the path of a blob: URL and therefore reads the limit
+// itself (under a small limit it answers "null"). Snapshots are taken with the limit lifted and the limit is put back afterwards.
+// (Found by the thorough tier: 'blob:http://6' compared unequal to itself only in origin.)
+template <class T>
+static obs::Snap snap_unlimited(const T& u, uint32_t restore) { ada::set_max_input_length(UNLIMITED); obs::Snap s = obs::snap(u); ada::set_max_input_length(restore); return s; }
 template <class T>
 static bool parse_under(uint32_t L, const std::string& in, const std::string* base, obs::Snap& s, bool& base_ok) {
   ada::set_max_input_length(L);
@@ -28,10 +33,10 @@ static bool parse_under(uint32_t L, const std::string& in, const std::string* ba
     auto bu = ada::parse<T>(b.sv());
     if (!bu) { base_ok = false; return false; }
     auto u = ada::parse<T>(i.sv(), &*bu);
-    if (!u) return false; s = obs::snap(*u); return true;
+    if (!u) return false; s = snap_unlimited(*u, L); return true;
   }
   auto u = ada::parse<T>(i.sv());
-  if (!u) return false; s = obs::snap(*u); return true;
+  if (!u) return false; s = snap_unlimited(*u, L); return true;
 }
 
 // ---------------------------------------------------------------- C08
@@ -102,14 +107,14 @@ static void run_c09(const Case& c) {
     const std::string& v = c[i + 1];
     vh::st().evaluations++;
     T Y = X;
-    obs::Snap before = obs::snap(X);
+    obs::Snap before = snap_unlimited(X, L);
     vh::Exact val(v);
     ada::set_max_input_length(UNLIMITED);
     int ry = obs::apply(Y, op, val.sv());
     obs::Snap ys = obs::snap(Y);
     ada::set_max_input_length(L);
     int rx = obs::apply(X, op, val.sv());
-    obs::Snap xs = obs::snap(X);
+    obs::Snap xs = snap_unlimited(X, L);
     std::string name = obs::op_name(op);
     if (xs.href.size() > L) { vh::violation("setter-result-exceeds-limit:" + name, c, "href size " + std::to_string(xs.href.size()) + " href=" + xs.href + ctx(i + 1)); break; }
     bool would_exceed = ys.href.size() > L;
